@@ -207,7 +207,10 @@ def eq(node, pattern, bind=None):
         else:
             ok = m.block(p, [node])
     elif isinstance(node, ast.expr):
-        ok = kind == "expr" and m.node(p, node)
+        if kind == "expr" and isinstance(p, ast.Name) and p.id != "__" and not (bind and p.id in bind):
+            ok = isinstance(node, ast.Name) and node.id == p.id  # a bare name only matches itself
+        else:
+            ok = kind == "expr" and m.node(p, node)
     else:
         ok = False
     return m.fwd if ok else None
@@ -227,9 +230,13 @@ def findall(root, pattern, bind=None, nested=True):
         return
     kind, p = pp
     roots = root if isinstance(root, list) else [root]
+    bare = kind == "expr" and isinstance(p, ast.Name) and p.id != "__"
     for r in roots:
         for n in ast.walk(r):
-            if kind == "expr":
+            if bare:
+                if isinstance(n, ast.Name) and n.id == p.id:  # a bare name only matches itself
+                    yield n
+            elif kind == "expr":
                 if isinstance(n, ast.expr):
                     m = _matcher(n, bind)
                     if m.node(p, n):
